@@ -310,7 +310,7 @@ def check_sessions(case):
 
 ARMS = [
     HypArm("differential", lambda tier: _case(tier), check_diff,
-           budget={"quick": 3000, "thorough": 200000}),
+           budget={"quick": 3000, "thorough": 200000}, shards={"quick": 8, "thorough": 64}),
     HypArm("sessions", lambda tier: _sess_case(tier), check_sessions,
            budget={"quick": 48, "thorough": 1500}, shrink=False),
 ]
